@@ -600,15 +600,16 @@ def headPlainCols (r : Rule) : List (String × Expr) :=
 def hasAgg (r : Rule) : Bool := r.args.any (fun a => match a.2 with | .agg _ _ => true | _ => false)
 
 /-- inline the functional calls of a rule (head expressions contribute conjuncts to the body) -/
+def inlineStep (acc : List (String × HeadArg) × List Prp × Nat) (a : String × HeadArg) :
+    List (String × HeadArg) × List Prp × Nat :=
+  match a.2 with
+  | .plain e => (acc.1 ++ [(a.1, HeadArg.plain (inlineE FUEL acc.2.2 e).1)], acc.2.1 ++ (inlineE FUEL acc.2.2 e).2.1, (inlineE FUEL acc.2.2 e).2.2)
+  | .agg op e => (acc.1 ++ [(a.1, HeadArg.agg op (inlineE FUEL acc.2.2 e).1)], acc.2.1 ++ (inlineE FUEL acc.2.2 e).2.1, (inlineE FUEL acc.2.2 e).2.2)
+
 def inlineRule (r : Rule) : Rule :=
-  let (body', k0) := inlineP FUEL 0 r.body
-  let step := fun (acc : List (String × HeadArg) × List Prp × Nat) (a : String × HeadArg) =>
-    let (done, cs, k) := acc
-    match a.2 with
-    | .plain e => let (e', c, k') := inlineE FUEL k e; (done ++ [(a.1, HeadArg.plain e')], cs ++ c, k')
-    | .agg op e => let (e', c, k') := inlineE FUEL k e; (done ++ [(a.1, HeadArg.agg op e')], cs ++ c, k')
-  let (args', cs, _) := r.args.foldl step ([], [], k0)
-  { r with args := args', body := .conj (body' :: cs) }
+  let b := inlineP FUEL 0 r.body
+  let h := r.args.foldl inlineStep ([], [], b.2)
+  { r with args := h.1, body := .conj (b.1 :: h.2.1) }
 
 /-- rows of one non-distinct rule: one row per solution -/
 def ruleRows (db : DB) (r : Rule) : Except String Rel := do
